@@ -162,10 +162,21 @@ func genProtocol(rng *Rng, workdir string, stress bool, proj string, bits int) *
 				switch {
 				case !tr.outDone && tr.outDay == day:
 					st := now + uint64(rng.Intn(int(86400-dur-1)))
+					if rng.Chance(1, 8) && uint64(p.TripLength) > tr.inDay-tr.outDay {
+						// leaves in the very second the promised trip starts (only for trips shorter than the Maximum
+						// Trip Duration: a trip of exactly that length that leaves at midnight is the known finding F19,
+						// probed separately)
+						st = now
+						s.stat["c20_boundary_departures"]++
+					}
 					f = flap.VerifFlight{Start: flap.EpochTime(st), End: flap.EpochTime(st + dur), From: icaoOf(tr.from), To: icaoOf(tr.to), Distance: flap.Kilometres(tr.dist)}
 					leg = "outbound"
 				case tr.inPlanned && tr.inDay == day:
 					st := now + uint64(rng.Intn(int(86400-dur-1)))
+					if rng.Chance(1, 8) {
+						st = now + 86400 - dur - 1 // lands in the very second the promised trip ends
+						s.stat["c20_boundary_landings"]++
+					}
 					f = flap.VerifFlight{Start: flap.EpochTime(st), End: flap.EpochTime(st + dur), From: icaoOf(tr.to), To: icaoOf(tr.from), Distance: flap.Kilometres(tr.dist)}
 					leg = "inbound"
 				default:
@@ -538,12 +549,17 @@ func runC20(o *Out, rng *Rng, tier string, replay string) {
 				o.Fail(f)
 			}
 		}
-		for _, k := range []string{"c20_promises_made", "c20_checkins_accepted", "c20_refused", "c20_trips_cancelled"} {
+		for _, k := range []string{"c20_promises_made", "c20_checkins_accepted", "c20_refused", "c20_trips_cancelled", "c20_boundary_departures", "c20_boundary_landings"} {
 			o.CountN(k, s.stat[k])
 		}
 		o.AddCase(List(s.coq), s.stat["c20_promises_made"] > 3 && s.stat["c20_checkins_accepted"] > 3, s.ops)
 		s.close()
 	}
+	// known finding F19, probed on every run with the real planner code
+	for _, f := range probeMidnightMaxLength(rng.Fork(), wd) {
+		o.Fail(f)
+	}
+	o.Count("probe_midnight_departure_maximum_length_trip")
 	// (A') the same protocol run by the real planner code of pkg/model
 	for c := 0; c < nReal+nRealStress; c++ {
 		s := genBotReal(rng.Fork(), wd, c >= nReal)
@@ -560,7 +576,11 @@ func runC20(o *Out, rng *Rng, tier string, replay string) {
 	}
 	// replayed by Run/RunProtocol.v: results compared with the model AND every operation decided against
 	// the discipline of the whole-history theorem (per traveller, on the model's state before it)
-	o.FlushCases("C20", protoRequires, "list (list eop)", "ep_mismatches 0%nat", 16)
+	shards := 16
+	if tier == "thorough" {
+		shards = 48 // stress histories of 100-200 days take seconds each to replay: keep every file well below the evaluation time limit
+	}
+	o.FlushCases("C20", protoRequires, "list (list eop)", "ep_mismatches 0%nat", shards)
 	o.sum.Notes = append(o.sum.Notes, "every operation of every protocol history is decided inside Coq against the discipline of C20_engine_history_every_checkin_accepted (conformsb on the model's state before the operation, one clock per traveller); an empty mismatch list means every generated history is conforming, i.e. the whole-history theorem applies to each of them (the discipline is fully decidable: the clause about the predictor is 'every accepted proposal has positive clearance dates', checked on the model's proposal)")
 	simBase := filepath.Join(o.dir, "sims")
 	type job struct{ sp *simSpec }
